@@ -53,7 +53,8 @@ class _Ctx:
                 return
             den = max(den, d)
             tot += abs(t)
-        if tot * den >= 2**53:
+        if tot * den >= 2**53 or den > 2**900:
+            # (a granularity finer than 2**-900 is in or near the subnormal range, where products round)
             self.exact = False
 
     def seen(self, q):
